@@ -95,9 +95,9 @@ MayStep(k) == phase = "run" /\ (Sequential => \A j \in DOMAIN proc : j < k => pr
 Set(k, r) == proc' = [proc EXCEPT ![k] = r]
 Clear(p) == [p EXCEPT !.mSrc = "", !.mTgt = "", !.tEx = FALSE, !.tMa = FALSE, !.use = "", !.img = ""]
 SRef(p) == <<"src", p.sr, p.st>>
-TgRef(p) == <<"tgt", p.tr, p.tt>>
-Pr(k) == Pair(k, proc[k].sr, proc[k].st, proc[k].tr, proc[k].tt)
-TgtTagsOf(repo) == {x[3] : x \in {y \in world : y[1] = "tgt" /\ y[2] = repo}}
+TgRef(k) == <<Ent(k).treg, proc[k].tr, proc[k].tt>>
+Pr(k) == Pair(k, proc[k].sr, proc[k].st, Ent(k).treg, proc[k].tr, proc[k].tt)
+TgtTagsOf(reg, repo) == {x[3] : x \in {y \in world : y[1] = reg /\ y[2] = repo}}
 
 keepW == UNCHANGED <<world, puts, nw, bkbad>>
 keepR == UNCHANGED <<conf, plan, phase, mode, before, exitc, nrun>>
@@ -170,7 +170,7 @@ TagList(k) ==
 
 TgtTags(k) ==
   /\ MayStep(k) /\ proc[k].pc = "tgttags"
-  /\ Set(k, [proc[k] EXCEPT !.pc = "nexttag", !.tags = SelectSeq(proc[k].tags, LAMBDA t : t \notin TgtTagsOf(proc[k].tr))])
+  /\ Set(k, [proc[k] EXCEPT !.pc = "nexttag", !.tags = SelectSeq(proc[k].tags, LAMBDA t : t \notin TgtTagsOf(Ent(k).treg, proc[k].tr))])
   /\ keepW /\ keepR /\ UNCHANGED <<held, cache, errs>>
 
 NextTag(k) ==
@@ -196,7 +196,7 @@ HeadTgt(k) ==
   /\ MayStep(k) /\ proc[k].pc = "headtgt"
   /\ LET e == Ent(k)
          p == proc[k]
-         t == Img(world, TgRef(p))
+         t == Img(world, TgRef(k))
          ex == t # ""
          ma == ex /\ t = p.mSrc
          q == [p EXCEPT !.mTgt = t, !.tEx = ex, !.tMa = ma]
@@ -230,7 +230,7 @@ Acquire(k) ==
 
 BkRead(k) ==
   /\ MayStep(k) /\ proc[k].pc = "bkread"
-  /\ LET b == Img(world, TgRef(proc[k])) IN
+  /\ LET b == Img(world, TgRef(k)) IN
      Set(k, IF b = "" THEN [proc[k] EXCEPT !.pc = "cpread"] ELSE [proc[k] EXCEPT !.pc = "bkwrite", !.img = b])
   /\ keepW /\ keepR /\ UNCHANGED <<held, cache, errs>>
 
@@ -258,13 +258,13 @@ DtWrite(k) ==
   /\ LET p == proc[k]
          d == CHOOSE x \in DtOf(p.img, p.sr) : TRUE
          i == Img(world, <<"src", p.sr, d>>)
-     IN IF Img(world, <<"tgt", p.tr, d>>) # i \/ Ent(k).force THEN Write(<<"tgt", p.tr, d>>, i) ELSE keepW
+     IN IF Img(world, <<Ent(k).treg, p.tr, d>>) # i \/ Ent(k).force THEN Write(<<Ent(k).treg, p.tr, d>>, i) ELSE keepW
   /\ Set(k, [proc[k] EXCEPT !.pc = "cpwrite"])
   /\ keepR /\ UNCHANGED <<held, cache, errs>>
 
 CpWrite(k) ==
   /\ MayStep(k) /\ proc[k].pc = "cpwrite"
-  /\ IF Img(world, TgRef(proc[k])) # proc[k].img \/ Ent(k).force THEN Write(TgRef(proc[k]), proc[k].img) ELSE keepW
+  /\ IF Img(world, TgRef(k)) # proc[k].img \/ Ent(k).force THEN Write(TgRef(k), proc[k].img) ELSE keepW
   /\ Set(k, Finish(proc[k], k))
   /\ held' = held \ {k}
   /\ keepR /\ UNCHANGED <<cache, errs>>
